@@ -10,12 +10,14 @@
      count   n                           StrategyManager.ActiveConnections() at a quiescent point
    and of concurrent TrackConnection calls:
      tb / te / ub / ue                   track call begins / returned, untrack call begins / returned
+     pbegin o / pick o b                 reader o is about to ask / has asked least-connections to choose
+                                         between B (where all tracked connections go) and idle C
      obegin o / obs o n                  reader o is about to read / has read ActiveConnections() = n *)
 EXTENDS LiteBalance, TraceLib
 
-VARIABLES cfg, open, lat, rrPrev, ctb, cte, cub, cue, ob, sel
+VARIABLES cfg, open, lat, rrPrev, ctb, cte, cub, cue, ob, sel, pb
 
-tv == <<cfg, open, lat, rrPrev, ctb, cte, cub, cue, ob, sel>>
+tv == <<cfg, open, lat, rrPrev, ctb, cte, cub, cue, ob, sel, pb>>
 tvars == <<vars, tv, l>>
 
 Put(f, k, v) == [x \in DOMAIN f \cup {k} |-> IF x = k THEN v ELSE f[x]]
@@ -27,15 +29,15 @@ PosOf(list, b) == LET S == {i \in 1..Len(list) : list[i] = b} IN IF S = {} THEN 
 TInit == /\ CursorInit
          /\ cfg = [strategy |-> "", list |-> <<>>, up |-> {}]
          /\ open = <<>> /\ lat = <<>> /\ rrPrev = 0
-         /\ ctb = 0 /\ cte = 0 /\ cub = 0 /\ cue = 0 /\ ob = <<>> /\ sel = <<>>
+         /\ ctb = 0 /\ cte = 0 /\ cub = 0 /\ cue = 0 /\ ob = <<>> /\ sel = <<>> /\ pb = <<>>
          /\ sc = 0 /\ remaining = <<>> /\ tries = <<>> /\ result = ""
 
 TReset == /\ IsEv("reset")
           /\ cfg' = [strategy |-> Rec.strategy, list |-> Rec.list, up |-> AsSet(Rec.up)]
           /\ open' = <<>> /\ lat' = <<>> /\ rrPrev' = 0
-          /\ ctb' = 0 /\ cte' = 0 /\ cub' = 0 /\ cue' = 0 /\ ob' = <<>> /\ sel' = <<>>
+          /\ ctb' = 0 /\ cte' = 0 /\ cub' = 0 /\ cue' = 0 /\ ob' = <<>> /\ sel' = <<>> /\ pb' = <<>>
 
-TLat == IsEv("lat") /\ lat' = Put(lat, Rec.b, Rec.ms) /\ UNCHANGED <<cfg, open, rrPrev, ctb, cte, cub, cue, ob, sel>>
+TLat == IsEv("lat") /\ lat' = Put(lat, Rec.b, Rec.ms) /\ UNCHANGED <<cfg, open, rrPrev, ctb, cte, cub, cue, ob, sel, pb>>
 
 TAttempt == /\ IsEv("attempt")
             /\ Rec.id \notin DOMAIN open
@@ -44,7 +46,7 @@ TAttempt == /\ IsEv("attempt")
             /\ rrPrev' = IF Len(Rec.tries) = 1 THEN PosOf(cfg.list, Rec.tries[1]) ELSE 0
             /\ sel' = Append(sel, IF Rec.result = "open" THEN Canon(Rec.tries[Len(Rec.tries)]) ELSE <<>>)
             /\ RRFair(cfg.strategy, cfg.list, cfg.up, sel')
-            /\ UNCHANGED <<cfg, lat, ctb, cte, cub, cue, ob>>
+            /\ UNCHANGED <<cfg, lat, ctb, cte, cub, cue, ob, pb>>
 
 \* fault: the backend that accepted connection id reset it before anything was forwarded
 \* (lite.Forward gave up while flushing the client's buffered bytes): not an open connection
@@ -57,27 +59,35 @@ TAbort == /\ IsEv("abort")
           /\ rrPrev' = IF Len(Rec.tries) = 1 THEN PosOf(cfg.list, Rec.tries[1]) ELSE 0
           /\ sel' = Append(sel, Canon(Rec.tries[Len(Rec.tries)]))
           /\ RRFair(cfg.strategy, cfg.list, cfg.up, sel')
-          /\ UNCHANGED <<cfg, open, lat, ctb, cte, cub, cue, ob>>
+          /\ UNCHANGED <<cfg, open, lat, ctb, cte, cub, cue, ob, pb>>
 
 TOpened == IsEv("opened") /\ Rec.id \notin DOMAIN open /\ open' = Put(open, Rec.id, <<>>)
-           /\ UNCHANGED <<cfg, lat, rrPrev, ctb, cte, cub, cue, ob, sel>>
+           /\ UNCHANGED <<cfg, lat, rrPrev, ctb, cte, cub, cue, ob, sel, pb>>
 TClose == IsEv("close") /\ Rec.id \in DOMAIN open /\ open' = Drop1(open, Rec.id)
-          /\ UNCHANGED <<cfg, lat, rrPrev, ctb, cte, cub, cue, ob, sel>>
+          /\ UNCHANGED <<cfg, lat, rrPrev, ctb, cte, cub, cue, ob, sel, pb>>
 TCount == IsEv("count") /\ Rec.n = Cardinality(DOMAIN open) /\ UNCHANGED tv
 
-TTb == IsEv("tb") /\ ctb' = ctb + 1 /\ UNCHANGED <<cfg, open, lat, rrPrev, cte, cub, cue, ob, sel>>
-TTe == IsEv("te") /\ cte < ctb /\ cte' = cte + 1 /\ UNCHANGED <<cfg, open, lat, rrPrev, ctb, cub, cue, ob, sel>>
-TUb == IsEv("ub") /\ cub' = cub + 1 /\ UNCHANGED <<cfg, open, lat, rrPrev, ctb, cte, cue, ob, sel>>
-TUe == IsEv("ue") /\ cue < cub /\ cue' = cue + 1 /\ UNCHANGED <<cfg, open, lat, rrPrev, ctb, cte, cub, ob, sel>>
+TTb == IsEv("tb") /\ ctb' = ctb + 1 /\ UNCHANGED <<cfg, open, lat, rrPrev, cte, cub, cue, ob, sel, pb>>
+TTe == IsEv("te") /\ cte < ctb /\ cte' = cte + 1 /\ UNCHANGED <<cfg, open, lat, rrPrev, ctb, cub, cue, ob, sel, pb>>
+TUb == IsEv("ub") /\ cub' = cub + 1 /\ UNCHANGED <<cfg, open, lat, rrPrev, ctb, cte, cue, ob, sel, pb>>
+TUe == IsEv("ue") /\ cue < cub /\ cue' = cue + 1 /\ UNCHANGED <<cfg, open, lat, rrPrev, ctb, cte, cub, ob, sel, pb>>
 \* LiteCount's CountOK over the interval of the read: reader o announces the read (obegin),
 \* reads, and reports the value (obs)
 TOBegin == IsEv("obegin") /\ ob' = Put(ob, Rec.o, [te |-> cte, ue |-> cue])
-           /\ UNCHANGED <<cfg, open, lat, rrPrev, ctb, cte, cub, cue, sel>>
+           /\ UNCHANGED <<cfg, open, lat, rrPrev, ctb, cte, cub, cue, sel, pb>>
 TObs == IsEv("obs") /\ Rec.o \in DOMAIN ob
         /\ ob[Rec.o].te - cub <= Rec.n /\ Rec.n <= ctb - ob[Rec.o].ue /\ Rec.n >= 0
         /\ UNCHANGED tv
 
-TNext == (TReset \/ TLat \/ TAttempt \/ TAbort \/ TOpened \/ TClose \/ TCount \/ TTb \/ TTe \/ TUb \/ TUe \/ TOBegin \/ TObs)
+\* least-connections choice between backend B (all tracked connections go there) and idle C, made by
+\* reader o while connections to B open and close (LiteLeast.PickRule)
+TPBegin == IsEv("pbegin") /\ pb' = Put(pb, Rec.o, cte)
+           /\ UNCHANGED <<cfg, open, lat, rrPrev, ctb, cte, cub, cue, ob, sel>>
+TPick == IsEv("pick") /\ Rec.o \in DOMAIN pb
+         /\ (Rec.b = "B" => pb[Rec.o] - cub <= 0)
+         /\ UNCHANGED tv
+
+TNext == (TReset \/ TLat \/ TAttempt \/ TAbort \/ TOpened \/ TClose \/ TCount \/ TTb \/ TTe \/ TUb \/ TUe \/ TOBegin \/ TObs \/ TPBegin \/ TPick)
          /\ UNCHANGED vars
 TSpec == TInit /\ [][TNext]_tvars
 =============================================================================
